@@ -229,6 +229,67 @@ theorem C04_failed_offers_only_run_on_fail (c : Cond) (offers : List Offer) (c' 
   obtain ⟨sx, h1, h2, h3, h4⟩ := C01_offer_from_staged E c offers c' h o ho
   exact ⟨sx, h1, h2, h3, h4 hs⟩
 
+/-! ### offers are sorted -/
+
+/-- the order offers are returned in: by task id, then by route -/
+def offerLe (a b : Offer) : Prop := a.id < b.id ∨ (a.id = b.id ∧ a.route ≤ b.route)
+
+theorem offerLe_trans {a b c : Offer} (h1 : offerLe a b) (h2 : offerLe b c) : offerLe a c := by
+  rcases h1 with h1 | ⟨h1, h1'⟩ <;> rcases h2 with h2 | ⟨h2, h2'⟩
+  · exact Or.inl (String.lt_trans h1 h2)
+  · exact Or.inl (h2 ▸ h1)
+  · exact Or.inl (h1 ▸ h2)
+  · exact Or.inr ⟨h1.trans h2, Nat.le_trans h1' h2'⟩
+
+theorem offerLe_of_not_lt {x y : Offer}
+    (h : ¬ ((decide (x.id < y.id) || (x.id == y.id && decide (x.route < y.route))) = true)) : offerLe y x := by
+  simp only [Bool.or_eq_true, decide_eq_true_eq, Bool.and_eq_true, beq_iff_eq, not_or, not_and, Nat.not_lt] at h
+  obtain ⟨h1, h2⟩ := h
+  by_cases heq : x.id = y.id
+  · exact Or.inr ⟨heq.symm, h2 heq⟩
+  · left
+    -- ¬ x.id < y.id and x.id ≠ y.id give y.id < x.id
+    by_cases hlt : y.id < x.id
+    · exact hlt
+    · exact absurd (String.le_antisymm (String.not_lt.mp hlt) (String.not_lt.mp h1)) heq
+
+theorem insOffer_sorted (x : Offer) (l : List Offer) (h : l.Pairwise offerLe) : (insOffer x l).Pairwise offerLe := by
+  induction l with
+  | nil => simp [insOffer]
+  | cons y ys ih =>
+    unfold insOffer
+    have hy := List.pairwise_cons.mp h
+    split
+    · next hlt =>
+      apply List.pairwise_cons.mpr
+      refine ⟨?_, h⟩
+      have hxy : offerLe x y := by
+        simp only [Bool.or_eq_true, decide_eq_true_eq, Bool.and_eq_true, beq_iff_eq] at hlt
+        rcases hlt with hlt | ⟨h1, h2⟩
+        · exact Or.inl hlt
+        · exact Or.inr ⟨h1, Nat.le_of_lt h2⟩
+      intro z hz
+      rcases List.mem_cons.mp hz with hz | hz
+      · subst hz; exact hxy
+      · exact offerLe_trans hxy (hy.1 z hz)
+    · next hnlt =>
+      apply List.pairwise_cons.mpr
+      refine ⟨?_, ih hy.2⟩
+      intro z hz
+      rcases (mem_insOffer x ys z).mp hz with hz | hz
+      · subst hz; exact offerLe_of_not_lt hnlt
+      · exact hy.1 z hz
+
+/-- **C08/C19**: whatever order the staged entries are in, the offers come back sorted by task id
+    and route -/
+theorem C08_offers_sorted (l : List Offer) : (sortOffers l).Pairwise offerLe := by
+  unfold sortOffers
+  suffices h : ∀ acc : List Offer, acc.Pairwise offerLe →
+      (l.foldl (fun acc x => insOffer x acc) acc).Pairwise offerLe from h [] List.Pairwise.nil
+  induction l with
+  | nil => intro acc h; exact h
+  | cons x xs ih => intro acc h; exact ih _ (insOffer_sorted x acc h)
+
 /-! ### rejected requests -/
 
 /-- **C04**: a status request the lifecycle forbids is rejected before anything is touched -/
